@@ -15,11 +15,13 @@ The product is bounded as "one or two dimensions at full alphabet x the rest at 
   P1  single signer, ALL digest-length tuples (85) x ALL signature-length tuples (85), layouts v2 / v3 / v3.1-only / v3+v3.1
   P2  single signer, ALL digest-length tuples x ALL certificate lists (7) x ALL attribute blobs (3), layouts v2 / v3
   P3  single signer, ALL signature-length tuples x ALL public keys (4) x ALL SDK tuples (6), layouts v2 / v3 / v3.1-only
+  P5  single signer (+ one 3-signer case per tuple), element SLACK: 4 / 12 extra bytes after the fields of one digest and/or
+      signature element (inside its length prefix), every element position of 6 length tuples, layouts v2 / v3 / v3.1-only / v3+v3.1
   P4  ALL layouts x ALL signer lists of length 0..3 over a reduced alphabet of 6 signer shapes (10 in thorough) x zip comment
 Oracle = the generating model: is_signed_v2/v3/v31 true exactly when a block with that id is present;
 has_duplicate_apk_signature_ids() (asked first on a fresh object, and again after the flags) <=> some id occurs twice;
 parse_v2_signing_block / parse_v3_signing_block(v31) signers: digests, certificates, attributes, signatures, public key and
-(v3) the four SDK bounds of the FIRST block with that id; get_certificates_der_* / get_public_keys_der_* /
+(v3) the four SDK bounds of the FIRST block with that id (slack bytes inside a digest / signature element are not content); get_certificates_der_* / get_public_keys_der_* /
 get_certificates_* / get_public_keys_* the corresponding flattened lists; absent scheme -> empty lists.  For a scheme whose
 first block has an empty value only the flags (and that no exception escapes the flag / duplicate queries) are judged.
 """
@@ -103,6 +105,8 @@ SHAPES_MORE = [
     {"d": [], "s": [64], "c": 1, "a": 0, "k": 2, "sdk": 2},
     {"d": [1, 1], "s": [0, 1, 32], "c": 3, "a": 0, "k": 1, "sdk": 4},
 ]
+SLACK_TUPLES = [(32,), (0,), (32, 64), (0, 1), (1, 32, 64), (64, 0, 32)]
+SLACK = {4: b"\xEE\xEE\xEE\xEE", 12: b"\x08\x00\x00\x00\x21\x04\x00\x00\x00\x00\x00\x00"}   # 12: looks like an element (0x421, b"")
 ROLE_B = [{"d": [1, 32], "s": [1], "c": 6, "a": 1, "k": 2, "sdk": 3}]
 ROLE_C = [{"d": [64], "s": [32, 1], "c": 2, "a": 2, "k": 1, "sdk": 2}, {"d": [], "s": [0], "c": 1, "a": 0, "k": 0, "sdk": 1}]
 
@@ -129,6 +133,21 @@ def cases(ctx):
             for k in range(len(KEYS)):
                 for sdk in range(len(SDKS)):
                     yield ("P3", lay, [dict(BASE, s=s, k=k, sdk=sdk)], 0)
+    # P5: elements with SLACK bytes after their fields, inside the element's own length prefix (legal; readers skip to the
+    # length-prefixed end): 4 / 12 bytes, in the digest list, the signature list or both, at every element position
+    for lay in ("v2", "v3", "v31-only", "v3B+v31A"):
+        for t in SLACK_TUPLES:
+            for i in range(len(t)):
+                for n in (4, 12):
+                    for which in ("d", "s", "ds"):
+                        sh = dict(BASE, d=list(t), s=list(t))
+                        if "d" in which:
+                            sh["dslack"] = [[i, n]]
+                        if "s" in which:
+                            sh["sslack"] = [[i, n]]
+                        yield ("P5", lay, [sh], 0)
+                        if i == 0 and n == 12 and which == "ds":
+                            yield ("P5", lay, [SHAPES[2], sh, dict(sh, dslack=[[j, 4] for j in range(len(t))])], 1)
     shapes = SHAPES + (SHAPES_MORE if ctx.thorough else [])
     for n in range(4):
         for lay in LAYOUT_ORDER:
@@ -159,9 +178,13 @@ def materialise(role, shapes):
     out = []
     for i, sh in enumerate(shapes):
         mn, mx, smn, smx = SDKS[sh["sdk"]]
+        dsl, ssl = dict(map(tuple, sh.get("dslack", []))), dict(map(tuple, sh.get("sslack", [])))
+        digests = [(ALGS[(i + j) % len(ALGS)], blob(role, i, j, "d", n)) for j, n in enumerate(sh["d"])]
+        sigs = [(ALGS[(i + j + 3) % len(ALGS)], blob(role, i, j, "s", n)) for j, n in enumerate(sh["s"])]
         out.append({
-            "digests": [(ALGS[(i + j) % len(ALGS)], blob(role, i, j, "d", n)) for j, n in enumerate(sh["d"])],
-            "sigs": [(ALGS[(i + j + 3) % len(ALGS)], blob(role, i, j, "s", n)) for j, n in enumerate(sh["s"])],
+            "digests": digests, "sigs": sigs,
+            "digests_wire": [p + ((SLACK[dsl[j]],) if j in dsl else ()) for j, p in enumerate(digests)],
+            "sigs_wire": [p + ((SLACK[ssl[j]],) if j in ssl else ()) for j, p in enumerate(sigs)],
             "certs": [G.cert_der(c) for c in CERTS[sh["c"]]],
             "attrs": attrs(sh["a"]),
             "pubkey": G.pubkey_der(KEYS[sh["k"]]) if KEYS[sh["k"]] else b"",
@@ -224,13 +247,13 @@ def first_diff(got, exp, v3):
     """compare one reported signer with the model -> (field, feature) | None"""
     sd = got.signed_data
     if list(sd.digests) != exp["digests"]:
-        return "digests", count_feature(exp["digests"])
+        return "digests", count_feature(exp["digests"]) + (":element-slack" if exp["shape"].get("dslack") else "")
     if [bytes(c) for c in sd.certificates] != exp["certs"]:
         return "certificates", "count=%d" % len(exp["certs"])
     if bytes(sd.additional_attributes) != exp["attrs"]:
         return "attributes", "present" if exp["attrs"] else "empty"
     if list(got.signatures) != exp["sigs"]:
-        return "signatures", count_feature(exp["sigs"])
+        return "signatures", count_feature(exp["sigs"]) + (":element-slack" if exp["shape"].get("sslack") else "")
     if bytes(got.public_key) != exp["pubkey"]:
         return "public-key", "present" if exp["pubkey"] else "empty"
     if v3:
@@ -298,7 +321,8 @@ def judge(case):
                 got = a._v31_signing_data
             got = list(got)
         except Exception as e:     # noqa
-            out.append(("%s:parse-exception:%s" % (label, type(e).__name__), "%s: parsing the %s block raised %s: %s"
+            slack = ":element-slack" if any(x["shape"].get("dslack") or x["shape"].get("sslack") for x in exp) else ""
+            out.append(("%s:parse-exception:%s%s" % (label, type(e).__name__, slack), "%s: parsing the %s block raised %s: %s"
                         % (tag, s, type(e).__name__, e)))
             continue
         if len(got) != len(exp):
@@ -369,7 +393,9 @@ def space(ctx):
             "attribute_blobs": ["none", "stripping-protection", "stripping-protection + one unknown"],
             "zip_comments": COMMENTS, "signer_shapes_P4": len(SHAPES) + (len(SHAPES_MORE) if ctx.thorough else 0),
             "cases_per_part": per,
-            "bounding": "P1 digests x signatures full; P2 digests x certificates x attributes full; P3 signatures x keys x SDK full; "
+            "element_slack": {"bytes": [4, 12], "tuples": [list(t) for t in SLACK_TUPLES], "lists": ["digests", "signatures", "both"],
+                              "position": "every element index"},
+            "bounding": "P5 slack at every position; P1 digests x signatures full; P2 digests x certificates x attributes full; P3 signatures x keys x SDK full; "
                         "P4 every layout x every list of 0..3 signers over the shape alphabet x comment"}
 
 
@@ -407,7 +433,7 @@ def finalize(ctx, acc):
     for lay in LAYOUTS:
         if acc.extra.get("P4_layout:" + lay) != per_layout:
             acc.harness_error("P4 layout %s: %r cases judged, %d in the space" % (lay, acc.extra.get("P4_layout:" + lay), per_layout))
-    for p in ("P1", "P2", "P3", "P4"):
+    for p in ("P1", "P2", "P3", "P4", "P5"):
         if not acc.extra.get("cases_" + p):
             acc.harness_error("vacuous: part %s empty" % p)
     # self-test of the model/serialiser pair: the block written for a known case must contain what the model says
